@@ -331,6 +331,8 @@ def analyse(spec):
                                "nsrc": len(own_sources(s)) + (1 if s["k"] == "upd" else 0), "correlated": False,
                                "corr_where": False,
                                "setop_from": any(x[0] == "q" and x[1].get("k") == "set" for x in s.get("from", []) or []),
+                               "setop_from_plain_join": any(x[0] == "q" and x[1].get("k") == "set" for x in s.get("from", []) or [])
+                               and any(j[1][0] == "t" and j[1][1][2] is None for j in s.get("joins", []) or []),
                                "setop_join_unnamed": any(j[1][0] == "q" and j[1][1].get("k") == "set" and j[1][1].get("alias") is None
                                                          for j in s.get("joins", []) or [])}
     refs = []
@@ -1224,8 +1226,12 @@ def to_coq(case, outcome):
         if outcome["text"].startswith("!"):
             return None
         evs = []
-        for e, g in zip(case["evs"], outcome["given"]):
-            if e[1] == "table" or (e[1] == "setop" and e[0] == "join" and g is None):
+        for e, g, act in zip(case["evs"], outcome["given"], outcome["aliases"]):
+            if e[1] == "table":
+                # (a table's alias is not run_hist's business; with a set operation among the FROM items do_join gives ANY
+                #  un-aliased joined table the name2 alias, because `item in base_tables` compares with the Term on the left)
+                evs.append("(EOther %s)" % OS(act))
+            elif e[1] == "setop" and e[0] == "join" and g is None:
                 evs.append("(EOther %s)" % OS(g))
             elif e[1] == "setop" and e[0] == "from":
                 evs.append("(EFromQ %s %s)" % (OS(g), N(0)))
@@ -1246,7 +1252,7 @@ def to_coq(case, outcome):
         except Exception:  # noqa
             return None
     for st in outcome["info"].values():
-        if st.get("setop_join_unnamed") or (st.get("setop_from") and st.get("correlated")):
+        if st.get("setop_join_unnamed") or (st.get("setop_from") and st.get("correlated")) or st.get("setop_from_plain_join"):
             return None        # set-operation sources: join() leaves them nameless / _validate_table never sees a foreign table
     if any(r["bind"] == ["foreign"] and outcome["info"][str(r["sid"])].get("setop_from") for r in outcome["refs"]):
         return None
